@@ -28,30 +28,30 @@ func init() {
 // materialisers: functions that rewrite content fields without changing the node's logical
 // content (child pointer <-> child hash), or that re-load the node from its own encoding.
 var c02Materialisers = map[string]string{
-	"branchNode.resolveCollapsed":        "loads children[pos] from the DB under EncodedChildren[pos]: same logical child",
-	"extensionNode.resolveCollapsed":     "loads child from the DB under EncodedChild: same logical child",
-	"branchNode.setHashConcurrent":       "only computes hashes",
-	"branchNode.hashChildren":            "only computes hashes",
-	"branchNode.hashNode":                "stores EncodedChildren[i] = hash of children[i]: the encoding of the same child",
-	"extensionNode.hashNode":             "stores EncodedChild = hash of child: the encoding of the same child",
-	"branchNode.commitDirty":             "replaces the node by its own collapsed form after it was written to the DB",
-	"extensionNode.commitDirty":          "replaces the node by its own collapsed form after it was written to the DB",
-	"branchNode.commitCheckpoint":        "drops child pointers after the child was written (EncodedChildren keep the hash)",
-	"extensionNode.commitCheckpoint":     "drops child pointer after the child was written",
-	"branchNode.commitSnapshot":          "drops child pointers after the child was written (EncodedChildren keep the hash)",
-	"extensionNode.commitSnapshot":       "drops child pointer after the child was written",
-	"branchNode.loadChildren":            "loads children from the DB under their hashes",
-	"extensionNode.loadChildren":         "loads child from the DB under its hash",
-	"branchNode.getAllLeavesOnChannel":   "resolves collapsed children then drops the pointers again",
+	"branchNode.resolveCollapsed":         "loads children[pos] from the DB under EncodedChildren[pos]: same logical child",
+	"extensionNode.resolveCollapsed":      "loads child from the DB under EncodedChild: same logical child",
+	"branchNode.setHashConcurrent":        "only computes hashes",
+	"branchNode.hashChildren":             "only computes hashes",
+	"branchNode.hashNode":                 "stores EncodedChildren[i] = hash of children[i]: the encoding of the same child",
+	"extensionNode.hashNode":              "stores EncodedChild = hash of child: the encoding of the same child",
+	"branchNode.commitDirty":              "replaces the node by its own collapsed form after it was written to the DB",
+	"extensionNode.commitDirty":           "replaces the node by its own collapsed form after it was written to the DB",
+	"branchNode.commitCheckpoint":         "drops child pointers after the child was written (EncodedChildren keep the hash)",
+	"extensionNode.commitCheckpoint":      "drops child pointer after the child was written",
+	"branchNode.commitSnapshot":           "drops child pointers after the child was written (EncodedChildren keep the hash)",
+	"extensionNode.commitSnapshot":        "drops child pointer after the child was written",
+	"branchNode.loadChildren":             "loads children from the DB under their hashes",
+	"extensionNode.loadChildren":          "loads child from the DB under its hash",
+	"branchNode.getAllLeavesOnChannel":    "resolves collapsed children then drops the pointers again",
 	"extensionNode.getAllLeavesOnChannel": "resolves collapsed child then drops the pointer again",
-	"branchNode.getCollapsed":            "writes into the clone it just made",
-	"extensionNode.getCollapsed":         "writes into the clone it just made",
-	"branchNode.removeChildrenPointers":  "drops child pointers of a committed node (EncodedChildren keep the hashes)",
-	"branchNode.saveToStorage":           "drops child pointers after the node was written to the DB",
-	"extensionNode.saveToStorage":        "drops the child pointer after the node was written to the DB (EncodedChild keeps the hash)",
-	"CollapsedBn.Unmarshal":              "generated decoder: fills the fresh node allocated by decodeNode/getEmptyNodeOfType",
-	"CollapsedEn.Unmarshal":              "generated decoder: fills the fresh node allocated by decodeNode/getEmptyNodeOfType",
-	"CollapsedLn.Unmarshal":              "generated decoder: fills the fresh node allocated by decodeNode/getEmptyNodeOfType",
+	"branchNode.getCollapsed":             "writes into the clone it just made",
+	"extensionNode.getCollapsed":          "writes into the clone it just made",
+	"branchNode.removeChildrenPointers":   "drops child pointers of a committed node (EncodedChildren keep the hashes)",
+	"branchNode.saveToStorage":            "drops child pointers after the node was written to the DB",
+	"extensionNode.saveToStorage":         "drops the child pointer after the node was written to the DB (EncodedChild keeps the hash)",
+	"CollapsedBn.Unmarshal":               "generated decoder: fills the fresh node allocated by decodeNode/getEmptyNodeOfType",
+	"CollapsedEn.Unmarshal":               "generated decoder: fills the fresh node allocated by decodeNode/getEmptyNodeOfType",
+	"CollapsedLn.Unmarshal":               "generated decoder: fills the fresh node allocated by decodeNode/getEmptyNodeOfType",
 }
 
 func runC02(c *core.Ctx) {
